@@ -397,7 +397,9 @@ fn draw_cfg(rng: &mut Rng) -> Cfg {
     let mut c = Cfg::new();
     c.insert("flavour".into(), rng.below(2) as i64);
     c.insert("fair".into(), rng.below(2) as i64);
-    c.insert("k".into(), rng.range(1, 6));
+    // live futures: mostly few (small joint states recur), sometimes many (batch loops, deep heaps / queues)
+    let k = if rng.pct(88) { rng.range(1, 6) } else { *rng.pick(&[8i64, 12]) };
+    c.insert("k".into(), k);
     c.insert("len".into(), rng.range(8, 96));
     c.insert("realism".into(), *rng.pick(&[10, 50, 90]));
     let base = [140u32, 300, 100, 60, 120, 2];
